@@ -81,6 +81,12 @@ def _shape(spans):
 
 
 SPECIAL_BASE = 100_000   # data set indices >= SPECIAL_BASE: special names
+# data set indices >= LAYOUT_BASE: ordinary names, but the OTel documents
+# reach the data source in another delivery layout (nested directories,
+# one JSON document per line, one single file given as `filepath`)
+LAYOUT_BASE = 200_000
+LAYOUTS = ["nested", "per_line", "per_line_nested", "single_file",
+           "single_file_per_line"]
 
 
 def gen_dataset(prop: str, idx: int) -> dict:
@@ -89,7 +95,7 @@ def gen_dataset(prop: str, idx: int) -> dict:
     wf_names = ["WFa", "WF b", "WFc"][:n_wf]
     if rng.random() < 0.5:
         wf_names = [w.replace(" ", "") for w in wf_names]
-    if idx >= SPECIAL_BASE:
+    if SPECIAL_BASE <= idx < LAYOUT_BASE:
         # workflow names with characters that are special to globbing,
         # regular expressions, file systems or text encodings, next to a
         # sibling name such a pattern would match (all legal file names, no
@@ -134,7 +140,8 @@ def gen_dataset(prop: str, idx: int) -> dict:
                 sid = f"{tid}-{cnt[0]:02d}"
                 cnt[0] += 1
                 app = "svc-" + name[0]
-                if idx >= SPECIAL_BASE + 600 and rng.random() < 0.3:
+                if SPECIAL_BASE + 600 <= idx < LAYOUT_BASE \
+                        and rng.random() < 0.3:
                     # present-but-empty application name
                     app = ""
                 d = {"trace_id": tid, "span_id": sid, "name": name,
@@ -368,6 +375,32 @@ def gen_dataset(prop: str, idx: int) -> dict:
                              "shape": _shape(t["spans"])} for t in traces},
         "faults": faults,
     }
+    if idx >= LAYOUT_BASE:
+        # own PRNG: the content draws above are those of an ordinary data set
+        lr = random.Random(core.derive(DATA_SALT, prop, idx, "layout"))
+        lay = LAYOUTS[(idx - LAYOUT_BASE) % len(LAYOUTS)]
+        ds["layout"] = lay
+        if "nested" in lay:
+            # sub-directories up to depth 3, two files may share a base name
+            dirs = ["", "a", "a/b", "a/b/c", "z", "a/y"]
+            for k, f in enumerate(files):
+                sub = lr.choice(dirs[1:] if k == 0 else dirs)
+                f["subdir"] = sub
+                if k and lr.random() < 0.3 and files[0]["subdir"] != sub:
+                    f["name"] = files[0]["name"]
+        if "per_line" in lay:
+            # every file is a sequence of documents, one per line: the
+            # resource_spans groups of the file are cut into 1..n documents
+            for f in files:
+                rs = f["doc"]["resource_spans"]
+                nd = lr.randint(1, max(1, len(rs)))
+                cuts = sorted(lr.sample(range(1, len(rs)), nd - 1)) \
+                    if len(rs) > 1 else []
+                docs = [rs[a:b] for a, b in zip([0] + cuts,
+                                                 cuts + [len(rs)])]
+                f["docs"] = [{"resource_spans": d} for d in docs]
+        faults["layout_" + lay] = 1
+        faults["documents"] = sum(len(f.get("docs", [1])) for f in files)
     return ds
 
 
@@ -415,14 +448,36 @@ FIELD_MAPPING = {
 }
 
 
+SINGLE_FILE = "all spans.json"
+
+
 def write_inputs(ds: dict, root: str) -> dict:
     import yaml
 
     data = os.path.join(root, "data")
     os.makedirs(data, exist_ok=True)
-    for f in ds["files"]:
-        with open(os.path.join(data, f["name"]), "w") as fh:
-            json.dump(f["doc"], fh)
+    lay = ds.get("layout", "")
+    if lay.startswith("single_file"):
+        # one file, handed to the data source as `filepath`
+        with open(os.path.join(data, SINGLE_FILE), "w") as fh:
+            if "per_line" in lay:
+                for f in ds["files"]:
+                    for d in f["docs"]:
+                        fh.write(json.dumps(d) + "\n")
+            else:
+                json.dump({"resource_spans": [
+                    r for f in ds["files"]
+                    for r in f["doc"]["resource_spans"]]}, fh)
+    else:
+        for f in ds["files"]:
+            d_ = os.path.join(data, f.get("subdir", ""))
+            os.makedirs(d_, exist_ok=True)
+            with open(os.path.join(d_, f["name"]), "w") as fh:
+                if "per_line" in lay:
+                    for d in f["docs"]:
+                        fh.write(json.dumps(d) + "\n")
+                else:
+                    json.dump(f["doc"], fh)
     paths = {"data": data}
     if ds.get("mapping"):
         mp = os.path.join(root, "mapping.yaml")
@@ -436,6 +491,8 @@ def write_config(ds: dict, root: str, data_dir: str, db_path: str,
                  tag: str) -> str:
     import yaml
 
+    lay = ds.get("layout", "")
+    single = lay.startswith("single_file")
     cfg = {
         "ingest_data": {"data_source": "json", "data_holder": "sql"},
         "data_holders": {"sql": {
@@ -443,7 +500,10 @@ def write_config(ds: dict, root: str, data_dir: str, db_path: str,
             "batch_size": ds["batch_size"],
             "time_buffer": ds.get("time_buffer", 0)}},
         "data_sources": {"json": {
-            "dirpath": data_dir, "filepath": None, "json_per_line": False,
+            "dirpath": None if single else data_dir,
+            "filepath": os.path.join(data_dir, SINGLE_FILE) if single
+            else None,
+            "json_per_line": "per_line" in lay,
             "field_mapping": FIELD_MAPPING}},
         "sequencer": ds.get("sequencer", {}),
     }
